@@ -5,6 +5,7 @@ CONSTANTS
   StatBs = {2, 3, 4}
   Seeds = {3, 4, 5}
   Reps = 16384
+  CbkVariants = {1, 2}
 INIT Init
 NEXT Next
 INVARIANT Emit
